@@ -9775,9 +9775,17 @@ impl<'a> Parser<'a> {
                 global,
             })
         } else {
-            Ok(Statement::ShowVariable {
-                variable: self.parse_identifiers()?,
-            })
+            // `SHOW <words>`: only words belong to the statement (`parse_identifiers` would
+            // skip -- and so drop -- every other token up to the end of the statement)
+            let mut variable = vec![];
+            while let Token::Word(w) = self.peek_token().token {
+                variable.push(w.to_ident());
+                self.next_token();
+            }
+            if variable.is_empty() {
+                return self.expected("a variable name after SHOW", self.peek_token());
+            }
+            Ok(Statement::ShowVariable { variable })
         }
     }
 
